@@ -1304,6 +1304,7 @@ pub fn main(args: &util::Args) {
             effects: true,
             wildcard_arrays: false,
             nested_patterns: i % 4 == 1,
+            ..Default::default()
         };
         let (src, _) = crate::progen::gen_program(&mut rng, cfg);
         if let Outcome::Ok(c) = util::compile_text(&dir, &src) {
